@@ -418,6 +418,8 @@ func callTerm(k Call) (string, bool) {
 
 const validDate = " 5-Nov-2020 12:34:56 +0100"
 
+var c04QuotedRe = regexp.MustCompile(`"([^"\r\n]{8,40})"`)
+
 func runFraming(h *H, cuts bool) {
 	imports := []string{"From GoImap.Base Require Import Bytes.", "From GoImap.Model Require Import Wire ServerConn ServerFrame ServerFrameCorr."}
 	corr := h.NewCorr("stream", imports, "sf_mismatches", 200).Type("sf_case")
@@ -710,7 +712,18 @@ func runFraming(h *H, cuts bool) {
 			// use commands outside the byte-level model (AUTHENTICATE, SEARCH)
 			return
 		}
-		corr.Add(fmt.Sprintf("(true, %s, [%s], [%s], %d, %s, %s, %s)", coqBool(litPlus), coqHxS(validDate), coqHxS("failbox"), st0, coqHx(stream), tokTerm, coqList(calls)), desc)
+		// the model takes "which strings are valid date-times" as an oracle: every quoted string of
+		// the stream that Go's time.Parse accepts for the server's layout (a mutated stream may
+		// contain variants of the generator's date, e.g. without the padding space)
+		dateTerms := []string{coqHxS(validDate)}
+		for _, m := range c04QuotedRe.FindAllSubmatch(stream, -1) {
+			if q := string(m[1]); q != validDate {
+				if _, err := time.Parse("_2-Jan-2006 15:04:05 -0700", q); err == nil {
+					dateTerms = append(dateTerms, coqHxS(q))
+				}
+			}
+		}
+		corr.Add(fmt.Sprintf("(true, %s, [%s], [%s], %d, %s, %s, %s)", coqBool(litPlus), strings.Join(dateTerms, "; "), coqHxS("failbox"), st0, coqHx(stream), tokTerm, coqList(calls)), desc)
 		if key != "" && h.Rng.Intn(150) == 0 {
 			h.Sample(map[string]interface{}{"stream": string(stream), "output": res.Raw})
 		}
